@@ -334,6 +334,22 @@ def d5(cx: Cx, ob: Ob) -> None:
             fs = prov.fields(key)
             for r_, f in fs:
                 order.append((ctx.path.out[2], f if r_ == rec else f"?{f}"))
+            for g in ctx.guards:
+                if g.kind != "guard":
+                    continue
+                a = g.a
+                if op(a) == "cmp" and a[1] in ("in", "not in") and a[3] == ups:
+                    continue
+                if op(a) == "cmp" and a[1] in ("is", "is not") and is_const(a[3], None) and op(a[2]) == "call" and callee_name(a[2]) == "get" and a[2][1][1] == ups:
+                    continue
+                if any(x == ups or x == rec for x in subterms(a)):
+                    ob.violate(
+                        fn.qualname,
+                        where(fn, ctx.path.out[2]),
+                        f"{hname} returns a mapped value only if additionally `{'' if g.b else 'not '}{show(a)[:70]}`: an applicable entry is passed over in favour of a later one",
+                        witness="a mapping that names both the canonical value (already satisfied) and a synonym: the synonym's entry is applied and the record is re-pointed although the canonical entry says it should stay",
+                        detail="extra-condition",
+                    )
             # guarded by membership of the same key
             if op(t) == "item" and not any(g.kind == "guard" and g.b is True and g.a == ("cmp", "in", key, ups) for g in ctx.guards):
                 ob.violate(fn.qualname, where(fn, ctx.path.out[2]), f"{hname} subscripts the mapping without testing membership of the same key", detail="unguarded")
